@@ -91,6 +91,8 @@ def jobs(tier, seed):
     for i in range(0, len(cfgs), n):
         js.append(dict(kind='namer', cfgs=cfgs[i:i + n], tier=tier))
     js.append(dict(kind='cd', tier=tier))
+    from vt import histfork
+    js += histfork.hist_jobs(len(hist_alphabet({})), tier)
     if seed:
         k = seed % len(js)
         js = js[k:] + js[:k]
@@ -104,6 +106,10 @@ def run_job(job):
                samples=[], distinct=set(), extra={'namer_exceptions': 0})
     seen = set()
     root = '/dev/shm/verif-c15-root/dl'
+    if job['kind'] == 'hist':
+        from vt import histfork
+        histfork.run_hist_job('vt.checks.c15', PROPERTY, job, res, seen)
+        return res
     if job['kind'] == 'namer':
         urls = url_set(job['tier'])
         infos = []
@@ -139,6 +145,49 @@ def run_job(job):
     else:
         run_cd(job, res, seen)
     return res
+
+
+# ------------------------------------------------------------------ call histories
+HIST_CFGS = {
+    'unix': dict(use_dir=True, cut=0, protocol=False, hostname=True, os_type='unix',
+                 no_control=True, ascii_only=True, case=None, max_filename_length=None),
+    'unix-raw': dict(use_dir=True, cut=0, protocol=False, hostname=False, os_type='unix',
+                     no_control=False, ascii_only=False, case=None, max_filename_length=None),
+    'win-lower': dict(use_dir=True, cut=0, protocol=True, hostname=True, os_type='windows',
+                      no_control=True, ascii_only=True, case='lower', max_filename_length=20),
+}
+HIST_URLS = ['http://files.example.com/readme.txt', 'ftp://h.test/a/%2E%2E/%2E%2E/x',
+             'ftp://h.test/%2E/y', 'ftp://h.test/a/%2e%2e', 'http://h.test/a%2Fb/c',
+             'http://h.test/a%0Ab', 'ftp://h.test/..%2f..%2fetc', 'http://h.test/CON/aux.',
+             'http://h.test/d/x?q=../..%2f', 'ftp://h.test/%2e%2e%5c..', 'http://h.test/é.e/']
+
+
+def hist_prepare(args):
+    import wpull.path       # noqa
+    import wpull.url        # noqa
+
+
+def hist_alphabet(args):
+    return [[c, u] for c in sorted(HIST_CFGS) for u in HIST_URLS]
+
+
+def hist_eval(item):
+    from wpull.path import PathNamer
+    from wpull.url import URLInfo
+    cfg, url = item
+    try:
+        return PathNamer(HIST_ROOT, **HIST_CFGS[cfg]).get_filename(URLInfo.parse(url))
+    except Exception as e:
+        return 'EXC:' + type(e).__name__
+
+
+HIST_ROOT = '/dev/shm/verif-c15-root/dl'
+
+
+def hist_judge(item, obs):
+    if obs.startswith('EXC:'):
+        return None
+    return judge_path(obs, HIST_ROOT, HIST_CFGS[item[0]])
 
 
 def run_cd(job, res, seen):
@@ -204,6 +253,9 @@ def close_body(resp):
 def replay(rec):
     res = dict(evaluations=0, outcomes={}, violations=[], distinct=set(),
                extra={'namer_exceptions': 0}, samples=[])
+    if rec['kind'] == 'hist':
+        from vt import histfork
+        return histfork.replay_hist('vt.checks.c15', rec)
     if rec['kind'] == 'namer':
         from wpull.path import PathNamer
         from wpull.url import URLInfo
